@@ -71,5 +71,9 @@ def check(ctx):
             ctx.finding(f'C14:NORESULT|{fn}', 'coverage', None, f'{fn}: the analysis produced no returning path')
     ctx.assumptions.append('A-CLOCK: SystemTime::now() is not before 1970 and before year 5_879_611 (the yy pattern reads the clock)')
     ctx.assumptions.append('K-SPLIT: nanos_to_days_nanos / secs_to_days_nanos contract (proved by check C04)')
+    # the cast and the arithmetic inside days_to_wyear (reached through the w pattern) depend on relations between leap counts that the
+    # interval domain does not keep; they are decided by the exhaustive year-class analysis of that function (vf/isoweek.py)
+    from ..isoweek import discharge_wyear_obligations
+    discharge_wyear_obligations(ctx)
     N.judge(allowed_causes=('std::time::SystemTime::duration_since',))
     ctx.cov['trusted_base'] += ['rustc MIR of the dev profile', 'vf/models.py rows: ' + ', '.join(sorted(N.I.models_used))[:900]]
